@@ -203,8 +203,48 @@ def histogram(path):
     with open(path, encoding="utf-8", errors="replace") as fh:
         for line in fh:
             w = line.split(" ", 3)
-            k = w[0] + " " + (w[1] if len(w) > 1 and w[0] != "T" else "")
+            k = w[0] + " " + (w[1] if len(w) > 1 and w[0] not in ("T", "W") else "")
+            if w[0] == "W" and len(w) > 1 and w[1].strip() in ("ERR", "PANIC", "HANG"):
+                k = "W " + w[1].strip()
             if w[0] == "X" and len(w) > 2:
                 k = "X %s %s" % (w[1], w[2].strip())
             h[k.strip()] = h.get(k.strip(), 0) + 1
     return h
+
+
+def distinct_accepted(cases_path, impl_path):
+    """walk the command file and the implementation output in lockstep: the set of distinct
+    (file contents) that the implementation accepted (O OK), keyed by base file + mutation command;
+    plus a few written-out samples of accepted corruptions"""
+    with open(impl_path, encoding="utf-8", errors="replace") as f:
+        impl = f.read().split("\n")
+    seen = set()
+    samples = []
+    pos = 0
+    base = mut = name = None
+    cur = []
+    with open(cases_path, encoding="utf-8") as fh:
+        for line in fh:
+            line = line.rstrip("\n")
+            if not line:
+                continue
+            t = line[:1]
+            if t == "T":
+                name = line[2:]
+            if t in "FW":
+                base, mut = (name, line[:80]), None
+            if t in "PCAR":
+                mut = line
+                cur = [line]
+            elif t in "OQN":
+                cur.append(line)
+            if t in PRODUCES:
+                o = impl[pos] if pos < len(impl) else ""
+                pos += 1
+                if t == "O" and o.startswith("O OK") and mut is not None and mut != "R":
+                    key = (base, mut)
+                    if key not in seen:
+                        seen.add(key)
+                        if len(samples) < 3 and len(seen) % 97 == 1:
+                            samples.append({"case": name, "commands": cur[:2], "impl": [o[:120]] + impl[pos:pos + 2]})
+    return len(seen), samples
